@@ -23,6 +23,7 @@ inductive Ev
   | finish (k : Nat) (c : Bool)        -- attempt k's function is about to return; c: the value matches the cancel conditions
   | callerRet (k : Nat)                -- the call returned attempt k's value
   | seeCancelled (k : Nat) (b : Bool)  -- after the return: attempt k's `IsCanceled()`
+  | settled (n : Nat)                  -- after the return and a grace period: the number of attempts whose function was ever entered
 deriving DecidableEq, Repr
 
 inductive Act
@@ -30,7 +31,7 @@ inductive Act
   | fnRet (k : Nat) (c : Bool)         -- visible: the function of attempt k returns (stamped inside the function)
   | count (k : Nat) (c : Bool)         -- silent: the attempt's goroutine counts the result (`isFinal` is decided here) …
   | trySend (k : Nat) (c f : Bool)     -- silent: … and then tries the CAS and sends
-  | enter (k : Nat) | callerRet (k : Nat) | seeCancelled (k : Nat)
+  | enter (k : Nat) | callerRet (k : Nat) | seeCancelled (k : Nat) | settled
 deriving DecidableEq, Repr
 
 /-- the model's state plus the attempts whose function has returned but whose result the library has not processed yet (the
@@ -53,6 +54,7 @@ def step (t : TS) : Act → Option TS
   | .enter k => if t.core.ths[k]? = some .running ∧ ¬ t.retd.any (fun x => x.1 == k) then some t else none
   | .callerRet k => if t.core.returned = true ∧ (t.core.accepted.map (·.1)) = some k then some t else none
   | .seeCancelled k => if t.core.returned = true ∧ k < t.core.launched then some t else none
+  | .settled => if t.core.returned = true then some t else none
 
 def silent : Act → Bool
   | .launchFirst | .timer | .recv | .count _ _ | .trySend _ _ _ => true
@@ -64,10 +66,11 @@ def shows (t : TS) : Act → Ev → Bool
   | .enter k, .enter k' => k == k'
   | .callerRet k, .callerRet k' => k == k'
   | .seeCancelled k, .seeCancelled k' b => k == k' && (t.core.cancelled.contains k == b)
+  | .settled, .settled n => t.core.launched == n     -- every attempt that was counted (`CopyForHedge`, `OnHedge`) was also started
   | _, _ => false
 
 def acts (n : Nat) : List Act :=
-  [.launchFirst, .launchHedge, .timer, .recv] ++
+  [.launchFirst, .launchHedge, .timer, .recv, .settled] ++
     (List.range n).flatMap (fun k => [.fnRet k true, .fnRet k false, .count k true, .count k false, .trySend k true true, .trySend k true false, .trySend k false true,
       .trySend k false false, .enter k, .callerRet k, .seeCancelled k])
 
@@ -103,6 +106,7 @@ theorem reach_inv (n : Nat) (t : TS) (h : Trace.Reach (osys n) t) : Inv t.core :
     | enter k => simp only [osys, step] at hst; split at hst <;> simp_all
     | callerRet k => simp only [osys, step] at hst; split at hst <;> simp_all
     | seeCancelled k => simp only [osys, step] at hst; split at hst <;> simp_all
+    | settled => simp only [osys, step] at hst; split at hst <;> simp_all
 
 def parseEv (s : String) : Option Ev :=
   match s.splitOn ":" with
@@ -111,6 +115,7 @@ def parseEv (s : String) : Option Ev :=
   | ["finish", k, c] => k.toNat?.map (fun k => .finish k (c == "1"))
   | ["ret", k] => k.toNat?.map .callerRet
   | ["see", k, b] => k.toNat?.map (fun k => .seeCancelled k (b == "1"))
+  | ["settled", n] => n.toNat?.map .settled
   | _ => none
 
 end Failsafe.Conc.TraceHedge
